@@ -68,10 +68,10 @@ def run(ctx):
     drv = TC.get_driver(ctx)
     if drv is None:
         return
-    n = 224 if ctx.quick else 2000
+    n = 224 if ctx.quick else 1500
     scripts = TC.corpus_scripts("C26") + make_scripts(ctx, n)
     TC.run_scripts(scripts, timeout=2 if ctx.quick else 8)
-    cap = 150 if ctx.quick else 2000          # (la) events checked per script (the first ones; the rest is counted)
+    cap = 150 if ctx.quick else 1000          # (la) events checked per script (the first ones; the rest is counted)
     queries, meta = [], []
     n_la = 0
     real_fail_int = 0
